@@ -654,6 +654,106 @@ func runC10(c *core.Ctx) {
 		c.Floor("positional reads of tsm1.Values expressions (matcher liveness)", all, 5)
 	})
 
+	c.Clause("D11", func() {
+		// deleteSeriesRange sorts the batch of series keys in place and then bounds every file walk by the first and
+		// last key. The positional reads of the batch (seriesKeys[0], seriesKeys[len-1]) therefore come after the
+		// sort; bounds taken from the batch as handed over (index order = creation order) skip the tombstones of every
+		// series that sorts below the originally-first key while the series is still dropped from the index.
+		f := c.Fn(dsr)
+		info := f.Info()
+		var batch types.Object
+		if f.Decl != nil && f.Decl.Type.Params != nil {
+			for _, fld := range f.Decl.Type.Params.List {
+				for _, nm := range fld.Names {
+					if t := info.TypeOf(nm); t != nil && t.String() == "[][]byte" {
+						batch = info.Defs[nm]
+					}
+				}
+			}
+		}
+		c.Need(batch != nil, "the [][]byte batch parameter of deleteSeriesRange")
+		var sortCall *ast.CallExpr
+		isSort := func(x ast.Expr) *ast.CallExpr {
+			ce, ok := x.(*ast.CallExpr)
+			if !ok || len(ce.Args) < 1 || !isIdentObj(info, ce.Args[0], batch) {
+				return nil
+			}
+			if fn, ok := core.Callee(info, ce).(*types.Func); ok && strings.HasPrefix(strings.ToLower(fn.Name()), "sort") {
+				return ce
+			}
+			return nil
+		}
+		for _, st := range f.Body.List {
+			switch s := st.(type) {
+			case *ast.ExprStmt:
+				if ce := isSort(s.X); ce != nil {
+					sortCall = ce
+				}
+			case *ast.IfStmt:
+				// if !IsSorted(batch) { Sort(batch) }
+				if s.Else == nil {
+					for _, b := range s.Body.List {
+						if es, ok := b.(*ast.ExprStmt); ok {
+							if ce := isSort(es.X); ce != nil && strings.Contains(core.ExprStr(s.Cond), "IsSorted") {
+								sortCall = ce
+							}
+						}
+					}
+				}
+			}
+		}
+		c.Check("batch-bounds-after-sort", f.Name+"/sorts-the-batch", f.PosStr(), sortCall != nil, "deleteSeriesRange does not sort the batch of series keys unconditionally at its top level")
+		n := 0
+		if sortCall != nil {
+			ast.Inspect(f.Body, func(nd ast.Node) bool {
+				ix, ok := nd.(*ast.IndexExpr)
+				if !ok || !isIdentObj(info, ix.X, batch) {
+					return true
+				}
+				// positional: a constant index or len(batch)-k
+				positional := false
+				if tv := info.Types[ix.Index]; tv.Value != nil {
+					positional = true
+				} else if be, ok := ast.Unparen(ix.Index).(*ast.BinaryExpr); ok {
+					if ce, ok := ast.Unparen(be.X).(*ast.CallExpr); ok && isLenCall(info, ce) {
+						positional = true
+					}
+				}
+				if !positional {
+					return true
+				}
+				n++
+				c.Check("batch-bounds-after-sort", fmt.Sprintf("%s/%s#%d", f.Name, core.ExprStr(ix), n), c.P.Pos(ix.Pos()), ix.Pos() > sortCall.End(),
+					"a bound of the batch is read before the batch is sorted: the file walks then use the first/last key in hand-over order, the tombstones of every series that sorts outside those bounds are skipped, and the series is dropped from the index all the same (its points return after a restart)")
+				return true
+			})
+		}
+		c.Floor("positional reads of the batch in deleteSeriesRange", n, 2)
+	})
+
+	c.Clause("D12", func() {
+		// A delete whose tombstones could not be committed on some file fails: on every path of Tombstoner.Flush on
+		// which commit returned an error, Flush returns a non-nil error (the error of a clean-up step that happened to
+		// succeed is not an answer). Otherwise the delete carries on and reports success while that file's points
+		// stay readable.
+		f := c.Fn(tsm1 + ".(*Tombstoner).Flush")
+		commit := calleeIn(f, tsm1+".(*Tombstoner).commit")
+		findOrAbort(c, f, "Tombstoner.commit", evCall(commit), 1)
+		bad := ""
+		n := 0
+		complete := f.Flow().ExplorePaths(core.KeepCalls(commit), func(e *core.Event, st core.State) {
+			if e.Kind != core.EvReturn || !core.OutcomeFailed(st, commit) {
+				return
+			}
+			n++
+			if rf, _ := f.ReturnErrFact(e); rf.Nil != core.NonNil {
+				bad = "Flush returns @" + c.P.Pos(e.Pos()) + " with a possibly-nil error on a path where commit failed"
+			}
+		})
+		c.Need(complete, "exploration bound Tombstoner.Flush")
+		c.Check("failed-tombstone-commit-fails-the-delete", f.Name+"/commit-failed-returns", f.PosStr(), bad == "" && n >= 1, bad)
+	})
+
 	c.Clause("D8", func() {
 		// Acknowledged points that are not yet in an installed TSM file live in Cache.store and, while a cache
 		// snapshot is being written, in Cache.snapshot. A delete has to filter both containers or keep a
